@@ -119,16 +119,17 @@ Outcome runOp(const Case& c) {
     }
     case OffsetPaths: case OffsetTree: {
       ClipperOffset co(c.D("ml", 2.0), c.D("at", 0.0), c.I("pc") != 0, c.I("rev") != 0);
-      if (op == OffsetTree) { PolyTree64 t0; co.Execute(delta, t0); if (t0.Count()) { o.structuralOk = false; o.why = "an empty ClipperOffset produced output"; } }   // nothing added yet
+      // OffsetTree: an Execute into a tree while nothing has been added (must be a no-op), then - that tree being gone -
+      // the paths are added and the same object is executed into plain paths and finally into a tree
+      if (op == OffsetTree) { PolyTree64 t0; co.Execute(delta, t0); if (t0.Count()) { o.structuralOk = false; o.why = "an empty ClipperOffset produced output"; } }
       co.AddPaths(a, jt, et);
       if (!b.empty()) co.AddPaths(b, (JoinType)c.I("jt2", 2), (EndType)c.I("et2", 4));
       Paths64 sol;
       if (op == OffsetTree) {
-        { PolyTree64 t; co.Execute(delta, t); sol = PolyTreeToPaths64(t); }
-        // the same object is then executed into plain paths: the tree above is gone and must not be touched again
-        Paths64 again;
-        co.Execute(delta, again);
-        checkClosed(again, o);
+        Paths64 first;
+        co.Execute(delta, first);
+        checkClosed(first, o);
+        PolyTree64 t; co.Execute(delta, t); sol = PolyTreeToPaths64(t);
       } else co.Execute(delta, sol);
       checkClosed(sol, o);
       o.outSize = sol.size();
